@@ -172,6 +172,10 @@ def fixed_cases():
     out.append(([[Z, F(1)], [F(-1), Z]], F(1, 2)))    # off-diagonal entries cancel: nnz 0, all equal
     out.append((diag([F(1, 8), F(-1, 8), F(1, 8), F(1, 4)]), F(1, 16)))
     out.append(([[F(2), F(-4), Z], [Z, F(2), F(-4)], [Z, Z, F(2)]], Z))
+    # large magnitudes with closely spaced values: exact comparison (|a - b| <= 1e-16) must not become a relative one
+    out.append((diag([F(1, 4), F(1, 2)]), F(65536)))                 # 65536, +1/2, +1/4, +3/4
+    out.append((diag([F(-65536), F(1, 4), F(-1, 4)]), Z))            # optimum -65536.25 next to -65536
+    out.append(([[F(1 << 30), F(1, 8)], [Z, F(-(1 << 30))]], F(1, 8)))
     return out
 
 
@@ -201,6 +205,8 @@ def gen_matrix(rng):
             M[i][n - 1] = F(0)
             M[n - 1][i] = F(0)
     c = F(rng.randint(-16, 16), rng.choice([1, 1, 8, 16]))
+    if rng.random() < 0.12:       # a large offset next to eighth-sized differences
+        c += rng.choice([-1, 1]) * (1 << rng.choice([16, 20, 30]))
     return M, c
 
 
